@@ -1415,7 +1415,8 @@ impl Exec {
                 }
             }
         }
-        if matches!(base, "pop" | "truncate" | "clear") || (matches!(base, "clone" | "from_ref" | "to_ls")) {
+        // neither writes nor grows: `shrink_to` / `shrink_to_fit` belong here too (the model leaves a static handle alone)
+        if matches!(base, "pop" | "truncate" | "clear" | "shrink_to" | "shrink_to_fit") || (matches!(base, "clone" | "from_ref" | "to_ls")) {
             let src = if matches!(base, "clone" | "from_ref" | "to_ls") {
                 t.get(2).and_then(|x| x.parse::<usize>().ok()).and_then(|s| before.get(s).cloned().flatten())
             } else {
